@@ -177,6 +177,8 @@ def classes(f, b, heads):
         if len(st) != 1:
             continue
         arm = out.setdefault(st[0], {})
+        if 'call' in blk['t'] and (b.callee(blk['t']) or '').endswith('::write_two'):
+            arm['two:definite'] = arm.get('two:definite', ISet()) | (ra.exact_of(bi) & CHAR)
         for s_ in blk['s']:
             if 'assign' in s_ and 'aggregate' in s_['rv'] and isinstance(s_['rv']['aggregate'], dict) and s_['rv']['aggregate'].get('variant') == 'Unmappable':
                 pay = r.operand(s_['rv']['ops'][0])
@@ -232,6 +234,22 @@ def char_classes(rep, f, c, rule):
         got = cl.get('Jis0208', {}).get('to:Ascii', ISet())
         rep.ob(rule, '%s:Jis0208:to:Ascii' % fn, ISet.of((0, 0x7F)) <= got if False else (got & ISet.of((0, 0x7F))) == ISet.of((0, 0x7F)),
                'ASCII characters must leave the jis0208 state', site, None, c)
+        # sibling agreement: the ASCII/Roman-state pre-check is_mapped_for_two_byte_encode() and the Jis0208-state body must agree on
+        # every character whose fate is decided by ranges alone (otherwise ESC $ B is emitted for a character that is then unmappable)
+        mb = f.body('iso_2022_jp::is_mapped_for_two_byte_encode')
+        if mb is None:
+            rep.undecidable(rule + '.premap', fn, 'is_mapped_for_two_byte_encode not found', site, c)
+        else:
+            BMPX = ISet.of((0x80, 0xD7FF), (0xE000, 0xFFFF))
+            ram = RangeAnalysis(f, mb, {('loc', 1)}, 16, BMPX, opaque_ok=True, N=0x10000)
+            dt = ISet()
+            for bi_, cv in ram.blocks_assigning_const(0):
+                if cv == 1:
+                    dt = dt | (ram.exact_of(bi_) & BMPX)
+            de = cl.get('Jis0208', {}).get('two:definite', ISet()) & BMPX
+            rep.ob(rule + '.premap', fn, not ram.mixed and dt == de and bool(dt),
+                   'characters the pre-check declares mapped by range alone %r differ from those the Jis0208-state body encodes by range alone %r' % (dt, de),
+                   site, {'definitely_mapped': repr(dt)}, c)
         for st in ('Ascii', 'Roman', 'Jis0208'):
             got = cl.get(st, {}).get('unmappable:c', ISet())
             rep.ob(rule, '%s:%s:astral' % (fn, st), (got & ASTRAL) == ASTRAL and not (got & (ISet.of((0, 0x7F)) | A5_203E)),
